@@ -27,7 +27,11 @@ RULE = ("exhaustive: every table type (every bnpdataclass of bionumpy.datatypes 
         "get_bufferclass_for_datatype(cls)).read(); concatenation with a second lazily read / an in-memory operand), and built from "
         "text columns handed over as EncodedArray / EncodedRaggedArray over character codes in int16/int32/int64/uint16/uint32; "
         "the row number of t[i] / column[i] as Python int and as NumPy scalar of nine integer types; wide-code text into every "
-        "text kind through constructor / replace / add_fields (same text or raise). sort_by orders numeric fields by value and text fields as "
+        "text kind through constructor / replace / add_fields (same text or raise); two more provenances: copy.deepcopy of the "
+        "table (owns copies of its encoding objects) and encoded columns handed over already encoded with the library's singleton "
+        "encodings, incl. a type whose fields are declared with the user's own equal-but-not-identical AlphabetEncoding objects "
+        "(D_own), down to 0 rows / letterless rows; operands that had set_context / a failed get_context called before "
+        "each operation (ctx; the context must still be there afterwards). sort_by orders numeric fields by value and text fields as "
         "byte strings. Non-trivial = >= 2 ops on a table with >= 2 column kinds, or an empty / single-row operand")
 EXHAUSTIVE = {"quick": False, "thorough": False}
 MODEL_OPS = {"program", "roundtrip", "dict", "pick", "sort_float"}
@@ -82,6 +86,8 @@ DYN = [
     ("D_nest", ["int", "inner", "sid"]),
     # integers beyond 2**53 (ids, hashes) and 32-bit edges, handed over as list / int64 / object array / pandas object column
     ("D_big", ["bigint", "sid", "float", "int"]),
+    # fields declared with the USER'S OWN alphabet encoding objects, equal to the library's singletons but not identical
+    ("D_own", ["int", "dna2", "strand2", "str"]),
 ]
 
 
@@ -95,6 +101,7 @@ def _mods():
     from bionumpy.bnpdataclass import bnpdataclass, BNPDataClass, make_dataclass
     from bionumpy.typing import SequenceID
     from bionumpy.encodings import DNAEncoding, StrandEncoding
+    from bionumpy.encodings.alphabet_encoding import AlphabetEncoding
 
     @bnpdataclass
     class Inner:
@@ -102,7 +109,9 @@ def _mods():
         s: str
 
     pytype = {"str": str, "sid": SequenceID, "int": int, "bigint": int, "float": float, "bool": bool, "opt": Optional[int],
-              "li": List[int], "dna": DNAEncoding, "strand": StrandEncoding, "inner": Inner}
+              "li": List[int], "dna": DNAEncoding, "strand": StrandEncoding, "inner": Inner,
+              "dna2": AlphabetEncoding("ACGT"), "strand2": type(StrandEncoding)("+-.")}
+    assert pytype["dna2"] == DNAEncoding and pytype["dna2"] is not DNAEncoding and pytype["strand2"] == StrandEncoding
     classes = {}
     for name, kinds in DYN:
         cls = make_dataclass([("f%d" % i, pytype[k]) for i, k in enumerate(kinds)], name=name)
@@ -346,9 +355,9 @@ def cell(kind, s):
         return 2 * s
     if kind == "li":
         return [s] * (s % 3)
-    if kind == "dna":
+    if kind in ("dna", "dna2"):
         return _b4(s)
-    if kind == "strand":
+    if kind in ("strand", "strand2"):
         return "+-."[s % 3]
     if kind == "inner":
         return (10 + s, "s%d" % s)
@@ -370,7 +379,8 @@ def canon_cell(kind, v):
 
 
 WIDE_DT = ["int16", "int32", "int64", "uint16", "uint32"]
-WIDE_KINDS = ("str", "dna", "strand")      # text kinds a caller may hand over as already-encoded character codes
+WIDE_KINDS = ("str", "dna", "strand", "dna2", "strand2")
+ENC_KINDS = {"dna": "dna", "dna2": "dna", "strand": "strand", "strand2": "strand"}      # kind -> the library's singleton encoding
 
 
 def _wide_text(vals, dtype, flat=False):
@@ -385,8 +395,11 @@ def _wide_text(vals, dtype, flat=False):
 
 def _column(m, kind, seeds, wide=None):
     vals = [cell(kind, s) for s in seeds]
-    if wide and kind in WIDE_KINDS:
-        return _wide_text(vals, wide, flat=(kind == "strand"))
+    if wide == "enc":
+        if kind in ENC_KINDS:       # the column ALREADY encoded, with the library's module-level encoding object
+            return m["bnp"].as_encoded_array("".join(vals) if ENC_KINDS[kind] == "strand" else vals, m["pytype"][ENC_KINDS[kind]])
+    elif wide and kind in WIDE_KINDS:
+        return _wide_text(vals, wide, flat=(kind in ("strand", "strand2")))
     if kind == "inner":
         return m["Inner"]([v[0] for v in vals], [v[1] for v in vals])
     if kind == "bigint":
@@ -415,6 +428,8 @@ class NotLazy(Exception):
 
 
 def _wide_of(src):
+    if src and src.startswith("enc"):
+        return "enc"
     return src[5:] if src and src.startswith("wide:") else None
 
 
@@ -422,7 +437,7 @@ def file_type(tname):
     """can a table of this type be had from a delimited text file (the generic buffer class of its data class)?
     Nested-table columns have no text form; the GFF / GTF family is read eagerly by design (known finding of C04)."""
     kinds = _mods()["classes"][tname][1]
-    return "inner" not in kinds and "bool" not in kinds and not tname.startswith(("GFF", "GTF"))
+    return "inner" not in kinds and "bool" not in kinds and not tname.startswith(("GFF", "GTF")) and tname != "D_own"
 
 
 def _cell_text(kind, s):
@@ -465,7 +480,43 @@ def _table(m, tname, cols, src=None):
     if src == "file":
         return _read_table(m, tname, cols)
     wide = _wide_of(src)
-    return cls(*[_column(m, k, c, wide) for k, c in zip(kinds, cols)])
+    t = cls(*[_column(m, k, c, wide) for k, c in zip(kinds, cols)])
+    if src and src.endswith("copy"):
+        import copy
+        t = copy.deepcopy(t)        # the copy owns copies of its columns' encoding objects (equal to, not identical with, the declared ones)
+    return t
+
+
+def _touch(t, ctx):
+    """calls of the table's public interface that are NOT column operations, made on an operand before it is used:
+    'set' = auxiliary information attached with set_context, 'get' = a look-up of a context name that is not there
+    (a failed call: KeyError on in-memory tables, None on lazily read ones)"""
+    import logging
+    if not ctx:
+        return
+    logging.disable(logging.WARNING)      # get_context logs a deprecation line per call
+    try:
+        if ctx == "set":
+            t.set_context("note", "n1")
+        else:
+            try:
+                t.get_context("no_such_name")
+            except KeyError:
+                pass
+            t.has_context("no_such_name")
+    finally:
+        logging.disable(logging.NOTSET)
+
+
+def _ctx_kept(t, ctx):
+    import logging
+    if ctx != "set":
+        return True
+    logging.disable(logging.WARNING)
+    try:
+        return bool(t.has_context("note")) and t.get_context("note") == "n1"
+    finally:
+        logging.disable(logging.NOTSET)
 
 
 def _dcls(t):
@@ -650,7 +701,7 @@ def oracle(c):
 
 FINALS = ["tolist", "iter", "dict", "pandas", "tuples"]
 PREDABLE = {"sid", "int", "float", "opt", "bigint"}      # fields whose `==`, `!=`, `np.isin` give a row mask
-SORTABLE = {"int", "float", "opt", "sid", "str", "dna", "bigint"}
+SORTABLE = {"int", "float", "opt", "sid", "str", "dna", "bigint", "dna2"}
 ADDABLE = ["int", "str", "float", "bigint"]
 
 
@@ -823,6 +874,9 @@ def srcs(tname, j=0):
         out.append("file")
     if any(k in WIDE_KINDS for k in kinds):
         out.append("wide:" + WIDE_DT[j % len(WIDE_DT)])
+    if any(k in ENC_KINDS for k in kinds):
+        out.append(["enc", "enc+copy"][j % 2])
+    out.append("copy")
     return out
 
 
@@ -849,9 +903,16 @@ def cases(tier, rng):
                 fin = "all" if (big or tname.startswith("D_")) else FINALS[(i + n) % len(FINALS)]
                 yield {"op": "program", "type": tname, "cols": cols, "ops": [op], "final": fin}
                 # the same table as the file readers hand it out (lazily parsed) / with text columns given as wide codes
-                for si, src in enumerate(srcs(tname, i + n)):
+                ss = srcs(tname, i + n)
+                for si, src in enumerate(ss):
+                    if not big and not tname.startswith("D_") and si != (i + n) % len(ss):
+                        continue        # quick tier, library types: one other provenance per operation, in rotation
                     yield {"op": "program", "type": tname, "cols": cols, "ops": [op], "src": src,
                            "final": "all" if big else FINALS[(i + n + si + 1) % len(FINALS)]}
+                # the operand has seen a non-column call of its public interface first (context attached / a failed look-up)
+                allsrc = [None] + srcs(tname, i)
+                yield _with_src({"op": "program", "type": tname, "cols": cols, "ops": [op], "ctx": ["set", "get"][(i + n) % 2],
+                                 "final": FINALS[(i + 2 * n) % len(FINALS)]}, allsrc[(i // 2 + n) % len(allsrc)])
         # rows <-> table
         w = len(kinds)
         for rows in ([], [[5] * w], [[5] * w, [6] * w, [7] * w], [[5] * (w + 1)], [[5] * (w + 1), [6] * (w + 1)]):
@@ -893,10 +954,16 @@ def cases(tier, rng):
                     yield {"op": "pick", "type": tname, "cols": cols, "ops": sel, "i": i, "np": (i + si) % 2 == 0,
                            "by": "column" if (dyn and (i + n) % 2 == 0) else "table"}
                     # every spelling of the row number on every provenance of the table (built, lazily read, wide codes)
-                    for sj, src in enumerate([None] + srcs(tname, i + si)):
+                    allp = [None] + srcs(tname, i + si)
+                    for sj, src in enumerate(allp):
+                        if not big and not dyn and sj != (i + si) % len(allp):
+                            continue        # quick tier, library types: one provenance per row number, in rotation
                         for spell in [_npi(i, 2 * (i + si + sj + n))] + ([False] if src and (dyn or big) else []):
-                            yield _with_src({"op": "pick", "type": tname, "cols": cols, "ops": sel, "i": i, "np": spell,
-                                             "by": "column" if (dyn and (i + n + sj) % 2 == 1) else "table"}, src)
+                            cc = _with_src({"op": "pick", "type": tname, "cols": cols, "ops": sel, "i": i, "np": spell,
+                                            "by": "column" if (dyn and (i + n + sj) % 2 == 1) else "table"}, src)
+                            if (i + si + sj) % 4 == 0:
+                                cc["ctx"] = ["set", "get"][(i + sj) % 2]
+                            yield cc
     # 1i. float keys with the values an order-by-comparison shortcut gets wrong: NaN (every comparison False), +-inf,
     #     -0.0 / 0.0 (equal, different bits): every sequence up to length 3 (4 thorough), longer ones sampled
     FV = ["nan", "-inf", "-0.0", "0.0", "1.0", "2.5", "inf"]
@@ -1031,6 +1098,8 @@ def cases(tier, rng):
         src = rng.choice([None, None] + srcs(tname, rng.randrange(len(WIDE_DT))))
         if src:
             c["src"] = src
+        if rng.random() < 0.3:
+            c["ctx"] = rng.choice(["set", "get"])
         if _sort_unambiguous(c):
             yield c
 
@@ -1117,21 +1186,29 @@ def impl(c):
         except Exception as e:
             return {"err": "harness-construct:" + type(e).__name__}
         unchanged = True
+        ctx = c.get("ctx")
         fresh = bool(c.get("fresh"))       # fresh: intermediate results go straight into the next operation, never read in between
         for i, op in enumerate(c["ops"]):
             before = None if fresh else _rows_tolist(t, kinds)
             old_kinds = list(kinds)
             try:
+                _touch(t, ctx)
                 t2, kinds, names = _apply_impl(m, t, op, kinds, names, src, c["type"])
                 lens = {len(getattr(t2, f.name)) for f in dataclasses.fields(t2)}
             except Exception as e:
                 return {"err": "raise", "at": op["k"], "exc": type(e).__name__}
             if not fresh and _rows_tolist(t, old_kinds) != before:
                 unchanged = False
+            if not _ctx_kept(t, ctx):
+                unchanged = False
             if len(lens) != 1:
                 return {"rows": None, "unequal_lengths": sorted(lens)}
             t = t2
         finals = FINALS if c["final"] == "all" else [c["final"]]
+        try:
+            _touch(t, ctx)
+        except Exception as e:
+            return {"err": "raise", "at": "context", "exc": type(e).__name__}
         iter_rows = None
         if "iter" in finals:
             # iterate the result BEFORE anything else touches it (tolist() re-bases sliced ragged columns)
@@ -1225,7 +1302,9 @@ def impl(c):
         def selected():
             t = _table(m, c["type"], c["cols"], src)
             for op in c["ops"]:                       # fresh: nothing reads the selection before it is indexed
+                _touch(t, c.get("ctx"))
                 t, _, _ = _apply_impl(m, t, op, kinds, names, src, c["type"])
+            _touch(t, c.get("ctx"))
             return t
         try:
             if c["by"] == "table":
